@@ -4,7 +4,7 @@ from __future__ import annotations
 import ast
 import re
 
-from .. import core, rx
+from .. import cfg, core, rx
 from ..core import nun, pmod, un
 from ..rules.canon import Canon
 from . import C07
@@ -159,6 +159,10 @@ def _writer(ctx, m, T, docs, lang) -> None:
     ft = m.func("Formatter._format_token")
     fl = m.func("Formatter._format_localizable_token")
     ch_t, ch_l = _chain(ft), _chain(fl)
+    try:
+        ft_paths = cfg.paths(ft)
+    except core.Unsupported:
+        ft_paths = []
     for tok in docs:
         ctx.ob("TABLES.language", f"token/{tok}", tok in lang,
                f"documented token {tok} is {'in' if tok in lang else 'NOT in'} the language of Formatter._TOKENS "
@@ -168,7 +172,33 @@ def _writer(ctx, m, T, docs, lang) -> None:
             last = i == len(ch_t) - 1
             handled = not last
             where = f"_format_token arm {i}"
-            if handled and any("_format_localizable_token" in un(s) for s in body):
+            # shape-independent: the token is rendered verbatim iff some path whose tests on `token` hold for it returns `token`
+            try:
+                verb = live_n = 0
+                for p in ft_paths:
+                    live = True
+                    for t, pol in p.assumes():
+                        if "token" not in t:
+                            continue
+                        try:
+                            if _ev(ast.parse(t, mode="eval").body, tok, keys) != pol:
+                                live = False
+                                break
+                        except core.Unsupported:
+                            pass
+                    if live:
+                        live_n += 1
+                        ex = p.exit()
+                        if ex[1] == "return" and nun(ex[2].value) == "token":
+                            verb += 1
+                if live_n:
+                    handled = verb == 0
+                    if handled and last:
+                        where = "_format_token (path analysis)"
+                        body = [s_ for p in ft_paths for s_ in p.stmts()]
+            except (core.Unsupported, SyntaxError):
+                pass
+            if handled and any("_format_localizable_token" in un(s) for s in body) and not last:
                 j, b2 = _arm_for(ch_l, tok, keys)
                 handled = j != len(ch_l) - 1
                 where = f"_format_localizable_token arm {j}"
@@ -443,10 +473,54 @@ def _width_scale(ctx, m, T) -> None:
     ctx.ob("MERIDIEM", "parse/meridiem", ok, "12-hour values are reduced with % 12 and pm adds 12", m.rel)
 
 
+def _offset_render_tabulate(ctx, m) -> bool | None:
+    """Z / ZZ render the UTC offset of the value: decided by evaluating Formatter._format_token with the checker's
+    interpreter on stub values (a `dt` whose utcoffset() is a given timedelta; the token tables taken from the class)."""
+    import datetime as _dtm
+    from types import SimpleNamespace as NS
+    from ..rules import minieval
+    ft = m.func("Formatter._format_token")
+    tabs = {}
+    for name in ("_DATE_FORMATS", "_LOCALIZABLE_TOKENS", "_TOKENS_RULES"):
+        try:
+            v = core.fold(m.assign(name, "Formatter"), m, "Formatter")
+            tabs[name] = set(v.keys()) if isinstance(v, dict) else set(v)
+        except Exception:       # noqa: BLE001
+            tabs[name] = set()
+    if {"Z", "ZZ"} & (tabs["_DATE_FORMATS"] | tabs["_LOCALIZABLE_TOKENS"] | tabs["_TOKENS_RULES"]):
+        return None
+    selfo = NS(**tabs)
+    bad, n = [], 0
+    try:
+        for mins in (0, 60, -60, 330, -330, 345, -210, 840, -720, 1, -1, 59, -59, 1439, -1439):
+            off = _dtm.timedelta(minutes=mins)
+            dt = NS(tzinfo=_dtm.timezone.utc, utcoffset=lambda off=off: off)
+            for token, sep in (("Z", ":"), ("ZZ", "")):
+                want = f"{'+' if mins >= 0 else '-'}{abs(mins) // 60:02d}{sep}{abs(mins) % 60:02d}"
+                got = minieval.call(ft, [selfo, dt, token, None], {}, {"$globals": {"datetime": _dtm, "cast": lambda t, v: v}})
+                n += 1
+                if got != want:
+                    bad.append(f"{token} at {mins:+d} min -> {got!r} (expected {want!r})")
+        for token in ("Z", "ZZ"):
+            got = minieval.call(ft, [selfo, NS(tzinfo=None, utcoffset=lambda: None), token, None], {}, {"$globals": {"datetime": _dtm}})
+            n += 1
+            if got != "":
+                bad.append(f"{token} on a naive value -> {got!r} (expected '')")
+    except (core.Unsupported, ValueError, TypeError, AttributeError, KeyError, IndexError) as e:
+        ctx.unverified("OFFSET.render", "Formatter._format_token/tabulated", f"outside the checker's interpreter: {e}", m.loc(ft))
+        return None
+    ctx.ob("OFFSET.render", "Formatter._format_token/tabulated", not bad,
+           f"{n} (token, offset) pairs evaluated: " + (f"wrong: {bad[:4]}" if bad else "all render sign, hh, separator (':' for Z only), mm"), m.loc(ft))
+    return not bad
+
+
 def _offsets(ctx, m) -> None:
     ft = m.func("Formatter._format_token")
+    tab = _offset_render_tabulate(ctx, m)
     arm = [b for t, b in _chain(ft) if t is not None and un(t) in ("token in ['ZZ', 'Z']", "token in ['Z', 'ZZ']")]
-    if not arm:
+    if tab:
+        pass                     # the rendered strings are right on the whole table: the shape of the arm is not a property
+    elif not arm:
         ctx.unverified("OFFSET.render", "Formatter._format_token", "Z/ZZ arm not found", m.rel)
     else:
         src = [nun(s) for s in arm[0]]
@@ -460,17 +534,26 @@ def _offsets(ctx, m) -> None:
         }
         for k, ok in checks.items():
             ctx.ob("OFFSET.render", f"Z-ZZ/{k}", ok, f"Z/ZZ arm statements {src}", m.rel)
+    im = pmod("parsing.iso8601")
+    t_fmt = C07.py_offset_tabulate(ctx, "OFFSET.parse", "Formatter._get_parsed_value", m, m.func("Formatter._get_parsed_value"))
+    t_iso = C07.py_offset_tabulate(ctx, "OFFSET.parse", "iso8601.parse_iso8601", im, im.func("parse_iso8601"))
+    if t_fmt and t_iso:
+        ctx.ob("SIBLING.offset", "iso8601-vs-formatter", True, "both offset-string parsers give the same (correct) table", m.rel)
+        return
     b = C07._offset_block(m, m.func("Formatter._get_parsed_value"), "value")
     if b is None:
-        ctx.unverified("OFFSET.parse", "Formatter._get_parsed_value", "offset block not found", m.rel)
+        if t_fmt is None:
+            ctx.unverified("OFFSET.parse", "Formatter._get_parsed_value", "offset block not found", m.rel)
         return
     joined = "\n".join(b)
     ctx.ob("OFFSET.parse", "from_format/formula", "offset = (int(off_hour) * 60 + int(off_minute)) * 60" in b, f"{b}", m.rel)
     ctx.ob("OFFSET.parse", "from_format/sign", "negative = bool(S.startswith('-'))" in b and "if negative:\n    offset = -1 * offset" in joined,
            "negated iff the string starts with '-'", m.rel)
-    im = pmod("parsing.iso8601")
     b1 = C07._offset_block(im, im.func("parse_iso8601"), "tz")
-    ctx.ob("SIBLING.offset", "iso8601-vs-formatter", b1 == b, "the two offset-string parsers must stay identical", m.rel)
+    if b1 is None:
+        ctx.unverified("SIBLING.offset", "iso8601-vs-formatter", "the offset block of parse_iso8601 has another shape; decided by tabulation only", m.rel)
+    else:
+        ctx.ob("SIBLING.offset", "iso8601-vs-formatter", b1 == b or bool(t_fmt and t_iso), "the two offset-string parsers must stay identical", m.rel)
 
 
 def _named_formats(ctx) -> None:
@@ -505,16 +588,36 @@ def _named_formats(ctx) -> None:
         ctx.ob("NAMED.const", f"constants.{k}", got == v, f"{k} = {got!r}; the documented composition is {v!r}", cm.rel)
     for a, b in (("RFC3339", "ISO8601"), ("RFC3339_EXTENDED", "ISO8601_EXTENDED"), ("W3C", "ISO8601")):
         ctx.ob("NAMED.const", f"constants.{a}", core.const("constants", a) == core.const("constants", b), f"{a} must alias {b}", cm.rel)
+    from .. import sem
     iso = dm.func("DateTime.to_iso8601_string")
-    ifs = [n for n in core.walk_fn(iso) if isinstance(n, ast.If)]
-    ok = len(ifs) == 1 and nun(ifs[0].test) == "self.tz and self.tz.name == 'UTC'" and \
-        [nun(s) for s in ifs[0].body] == ["string = string.replace('+00:00', 'Z')"]
-    ctx.ob("NAMED.iso8601", "DateTime.to_iso8601_string", ok,
-           "the +00:00 -> Z rewrite must apply only when the zone is named UTC", dm.loc(iso))
+    try:
+        lv = sem.leaves_of(dm, "DateTime.to_iso8601_string")
+        rew = [(c, it) for c, it in lv if any("replace('+00:00', 'Z')" in str(x) for x in it)]
+        plain = [(c, it) for c, it in lv if any(x[0] == "exit" and x[1] == "return" for x in it) and not any("replace('+00:00', 'Z')" in str(x) for x in it)]
+        utc = lambda c: c.get("self.tz") is True and any(("UTC" in k and "self.tz.name" in k and "==" in k) and v for k, v in c.items())  # noqa: E731
+        ok = bool(rew) and all(utc(c) for c, _ in rew) and bool(plain) and not any(utc(c) for c, _ in plain)
+        ctx.ob("NAMED.iso8601", "DateTime.to_iso8601_string", ok,
+               f"'+00:00' is rewritten to 'Z' under {[sorted(k for k, v in c.items() if 'tz' in k) for c, _ in rew][:2]}; it must apply exactly when "
+               f"the zone is set and named UTC", dm.loc(iso))
+    except (sem.Giveup, core.Unsupported, KeyError, AttributeError) as e:
+        ctx.unverified("NAMED.iso8601", "DateTime.to_iso8601_string", str(e), dm.loc(iso))
     ts = dm.func("DateTime._to_string")
-    src = un(ts)
-    ctx.ob("NAMED.dispatch", "DateTime._to_string", "self._FORMATS[fmt]" in src and "return self.format(fmt_value, locale=locale)" in src
-           and "return fmt_value(self)" in src, "_to_string must look the format up and delegate to format()/the callable", dm.loc(ts))
+    try:
+        lv = sem.leaves_of(dm, "DateTime._to_string")
+        look = ("self._FORMATS[fmt]", "self._FORMATS.get(fmt)")
+        raises = [c for c, it in lv if any(x[0] == "exit" and x[1] == "raise" and "ValueError" in str(x[2]) for x in it)]
+        calls_ = [c for c, it in lv if any(x[0] == "exit" and x[1] == "return" and str(x[2]) in tuple(f"{l}(self)" for l in look) for x in it)]
+        fmts = [c for c, it in lv if any(x[0] == "exit" and x[1] == "return" and any(str(x[2]) == f"self.format({l}, locale=locale)" or
+                                                                                    str(x[2]) == f"self.format(fmt={l}, locale=locale)" for l in look) for x in it)]
+        ok = bool(raises) and bool(calls_) and bool(fmts) \
+            and all(any("callable(" in k and v for k, v in c.items()) for c in calls_) \
+            and all(any("callable(" in k and not v for k, v in c.items()) for c in fmts) \
+            and all(any((" in self._FORMATS" in k and not v) or ("self._FORMATS.get(fmt) is None" in k and v) for k, v in c.items()) for c in raises)
+        ctx.ob("NAMED.dispatch", "DateTime._to_string", ok,
+               f"{len(raises)} unsupported-format exits, {len(calls_)} callable exits, {len(fmts)} format() exits; _to_string must look the format up, "
+               f"refuse an unknown name and delegate to format() / the callable", dm.loc(ts))
+    except (sem.Giveup, core.Unsupported, KeyError, AttributeError) as e:
+        ctx.unverified("NAMED.dispatch", "DateTime._to_string", str(e), dm.loc(ts))
     simple = {"to_time_string": "self.format('HH:mm:ss')", "to_datetime_string": "self.format('YYYY-MM-DD HH:mm:ss')",
               "to_day_datetime_string": "self.format('ddd, MMM D, YYYY h:mm A', locale='en')"}
     for q, want_s in simple.items():
